@@ -112,6 +112,34 @@ def e2e_explore(rep, seeds, polls, orders, props, what):
     rep.notes.append(f"{what}: {len(seeds)} histories x {polls} polls: {tot}")
 
 
+def env_induction(rep, orders):
+    """C01/C12 for unbounded time (EnvInd.tla, Apalache): with the EXTRACTED read orders the error envelope is an
+    inductive invariant; with either order swapped a containment violation is reachable within 9 steps (controls)."""
+    import shutil
+    apa = cb.workdir("apa_env_" + rep.pid)
+    spec = os.path.join(cb.SPEC, "EnvInd.tla")
+
+    def run(cinit, extra):
+        p = cb.run(["timeout", "600", "apalache-mc", "check", f"--cinit={cinit}", f"--out-dir={apa}/o", f"--run-dir={apa}/r"] + extra + [spec], timeout=650)
+        return p.stdout + p.stderr
+    code = {("mono_first", "real_first"): "CodeOrders", ("query_first", "real_first"): "PollerSwapped", ("mono_first", "mono_first"): "ClientSwapped"}.get((orders["poller"], orders["client"]))
+    if code == "CodeOrders":
+        for what, extra in (("initial state satisfies IndInv", ["--init=Init", "--inv=IndInv", "--length=0"]), ("IndInv (error envelope, Containment) is inductive over every action", ["--init=IndInit", "--inv=IndInv", "--length=1"])):
+            out = run(code, extra)
+            if "The outcome is: NoError" not in out:
+                raise ToolError(f"Apalache: EnvInd {what} failed:\n{out[-1500:]}")
+            rep.notes.append(f"Apalache (EnvInd.tla, unbounded time and integers, the extracted read orders): {what}")
+        rep.extra["symbolic_obligations"] = rep.extra.get("symbolic_obligations", 0) + 2
+    else:
+        rep.notes.append(f"EnvInd.tla: the extracted read orders {orders} are not the ones the envelope argument rests on; induction not attempted")
+    for ctl in ("PollerSwapped", "ClientSwapped"):
+        out = run(ctl, ["--init=Init", "--inv=Containment", "--length=9"])
+        if "The outcome is: Error" not in out:
+            raise ToolError(f"Apalache control {ctl}: no containment violation within 9 steps - the model says nothing about the read order:\n{out[-800:]}")
+        rep.notes.append(f"Apalache control {ctl}: a containment violation is reachable within 9 steps, as it must")
+    shutil.rmtree(apa, ignore_errors=True)
+
+
 def orders_or_drift():
     o = ejson(["order"])
     return o
@@ -136,6 +164,7 @@ def c01(tier, seed):
     orders = {"poller": o["poller"] if o["poller"] != "other" else "mono_first", "client": o["client"] if o["client"] != "other" else "real_first"}
     r = e2e_mc(rep, "q" if tier == "quick" else "t", dict(MCQ if tier == "quick" else MCT, **orders), timeout=5400)
     mc_violated = r.violated
+    env_induction(rep, orders)
     b, n = e2e_sim(rep, "sim", dict(SIM, **orders), 400 if tier == "quick" else 6000, 45, seed)
     drifts = e2e_replay(rep, b, orders, {"C01"}, "E2E walks")
     os.remove(b)
@@ -180,6 +209,7 @@ def c12(tier, seed):
     for k, v in (("poller", "query_first"), ("client", "mono_first")):
         rr = e2e_mc(rep, f"swap_{k}", dict(MCT, ticks=3, asks=1, starts=1, **dict({"poller": "mono_first", "client": "real_first"}, **{k: v})), timeout=1200)
         rep.notes.append(f"model regression: {k} order {v} => Containment {'violated as expected' if rr.violated else 'NOT violated (unexpected)'}")
+    env_induction(rep, orders)
     # R: walks with delays between the reads
     b, n = e2e_sim(rep, "sim", dict(SIM, **orders), 400 if tier == "quick" else 6000, 45, seed)
     drifts = e2e_replay(rep, b, orders, {"C12", "C01"}, "E2E walks")
